@@ -4,7 +4,7 @@ CONSTANTS
   Dials <- MCDials
   Proxies = {"none", "http", "https", "socks5"}
   HookSets = {"c", "ct", "n", "nt"}
-  Tmos = {"none", "ht", "ctx", "both"}
+  Tmos = {"none", "ht", "ctx", "bothe", "bothl"}
   ReplyKinds = {"good", "neg", "malformed", "none"}
   CReplyKinds = {"ok", "refuse", "malformed", "none"}
   Certs = {"valid", "other", "untrusted"}
